@@ -192,6 +192,40 @@ def short_programs(rng, maxlen, sample=None):
     return out
 
 
+def sharing_programs():
+    """A container is created, remembered (PUT in any width, MEMOIZE, or DUP), filled by one of the
+    incremental opcodes before and/or after being remembered, fetched again, and both references returned."""
+    out = []
+    remember = [(P.BINPUT(0), P.BINGET(0)), (P.PUT(0), P.GET(0)), (P.LONG_BINPUT(0), P.LONG_BINGET(0)), (P.MEMOIZE, P.BINGET(0)),
+                (P.BINPUT(7), P.LONG_BINGET(7)), (P.PUT(300), P.LONG_BINGET(300)), (P.DUP, None)]
+    item = [P.BININT1(1), P.BININT1(2), P.BININT1(3), P.BININT1(4)]
+    for kind in ("list", "dict"):
+        new = [P.EMPTY_LIST, P.MARK + P.LIST] if kind == "list" else [P.EMPTY_DICT, P.MARK + P.DICT]
+        def fill(n, batch):
+            if n == 0:
+                return [b""] + ([P.MARK + (P.APPENDS if kind == "list" else P.SETITEMS)] if batch else [])
+            if kind == "list":
+                xs = b"".join(item[:n])
+                return [P.MARK + xs + P.APPENDS] if batch else [b"".join(i + P.APPEND for i in item[:n])]
+            kv = [item[i] + item[(i + 1) % 4] for i in range(n)]
+            return [P.MARK + b"".join(kv) + P.SETITEMS] if batch else [b"".join(x + P.SETITEM for x in kv)]
+        for mk in new:
+            for put, get in remember:
+                for nb in (0, 1, 2):
+                    for na in (0, 1, 2, 3):
+                        for bb in (False, True):
+                            for ba in (False, True):
+                                for before in fill(nb, bb):
+                                    for after in fill(na, ba):
+                                        if get is None:      # DUP: two references on the stack
+                                            out.append(mk + before + put + after + P.TUPLE2 + P.STOP)
+                                            out.append(mk + before + put + P.POP + after + P.DUP + P.TUPLE2 + P.STOP)
+                                        else:
+                                            out.append(mk + before + put + after + get + P.TUPLE2 + P.STOP)
+                                            out.append(mk + before + put + P.POP + get + after + get + P.TUPLE2 + P.STOP)
+    return list(dict.fromkeys(out))
+
+
 class C06:
     prop = "C06"
     lean_module = "Ogorek.Props.C06"
@@ -214,7 +248,7 @@ class C06:
 
     def run(self, ctx):
         rng = ctx.rng
-        progs = own_corpus("C06") + short_programs(rng, ctx.scale(4, 5), sample=ctx.scale(0.25, 0.2))
+        progs = own_corpus("C06") + sharing_programs() + short_programs(rng, ctx.scale(4, 5), sample=ctx.scale(0.25, 0.2))
         for _ in range(ctx.scale(2500, 60000)):
             g = P.ProgGen(rng, wellformed=True, maxops=rng.choice([6, 12, 25, 50]), colliding=0.05, persid=0.04,
                           allow_unhashable_keys=0.0, special_calls=False)
@@ -333,6 +367,7 @@ class C09:
                 p = b"}q\x00(" + b"".join(k + v for k, v in zip(ks[:h], vals[:h])) + b"u0h\x00" + \
                     b"".join(k + v + b"s" for k, v in zip(ks[h:], vals[h:])) + b"h\x00\x86."
             out.append(p)
+        out += [p for p in sharing_programs() if p[:1] in (b"}", b"(") and b"d" in p[:3] or p[:1] == b"}"]
         for _ in range(ctx.scale(500, 10000)):
             out.append(P.ProgGen(rng, wellformed=True, colliding=0.7, maxops=rng.choice([10, 25, 40]), allow_unhashable_keys=0.02,
                                  special_calls=False).gen())
